@@ -1,6 +1,8 @@
 package c15
 
 import (
+	"bytes"
+	"encoding/hex"
 	"fmt"
 	"math/big"
 	"runtime"
@@ -15,6 +17,8 @@ import (
 func extras() []core.Extra {
 	return []core.Extra{
 		{Name: "parseuint-boundary-grid", Run: boundaryGrid},
+		{Name: "parseuint-smallscope-exhaustive", Run: puSmallScope},
+		{Name: "hex-smallscope-exhaustive", Run: hexSmallScope},
 		{Name: "ipv4-roundtrip-sample", Run: ipSample, Tiers: []string{"quick"}},
 		{Name: "ipv4-roundtrip-all-2^32", Run: ipAll, Tiers: []string{"thorough"}},
 	}
@@ -135,4 +139,123 @@ func ipAll(ctx *core.Ctx) (int, string, []core.ExtraFailure) {
 	close(jobs)
 	wg.Wait()
 	return 1 << 32, fmt.Sprintf("all 2^32 addresses round-trip on %d workers", nw), fails
+}
+
+// enumerate calls f for every string of length 1..maxLen over alpha whose first
+// character is alpha[first] (the work is split by first character).
+func enumerate(alpha string, first, maxLen int, f func([]byte)) {
+	cur := make([]byte, 0, maxLen)
+	var rec func()
+	rec = func() {
+		f(cur)
+		if len(cur) == maxLen {
+			return
+		}
+		for i := 0; i < len(alpha); i++ {
+			cur = append(cur, alpha[i])
+			rec()
+			cur = cur[:len(cur)-1]
+		}
+	}
+	cur = append(cur, alpha[first])
+	rec()
+}
+
+// parallelFirst runs work(first) for every first character on all cores and collects
+// the evaluation counts and the first failure.
+func parallelFirst(n int, work func(first int) (int, *core.ExtraFailure)) (int, []core.ExtraFailure) {
+	var mu sync.Mutex
+	var wg sync.WaitGroup
+	evals := 0
+	var fails []core.ExtraFailure
+	sem := make(chan struct{}, runtime.NumCPU())
+	for i := 0; i < n; i++ {
+		wg.Add(1)
+		sem <- struct{}{}
+		go func(i int) {
+			defer wg.Done()
+			defer func() { <-sem }()
+			e, f := work(i)
+			mu.Lock()
+			evals += e
+			if f != nil && len(fails) == 0 {
+				fails = append(fails, *f)
+			}
+			mu.Unlock()
+		}(i)
+	}
+	wg.Wait()
+	return evals, fails
+}
+
+// puSmallScope: every string of length ≤ 5 (quick) / ≤ 6 (thorough) over an alphabet holding
+// the prefix letters, boundary digits, underscore and a sign, × bases {0,2,8,10,16,36} ×
+// bit sizes {0,8,64}: strz.ParseUint (string and []byte) vs strconv.ParseUint.
+func puSmallScope(ctx *core.Ctx) (int, string, []core.ExtraFailure) {
+	const alpha = "01789afzxXob_B+"
+	maxLen := 5
+	if ctx.Tier == "thorough" {
+		maxLen = 6
+	}
+	bases := []int{0, 2, 8, 10, 16, 36}
+	bitss := []int{0, 8, 64}
+	evals, fails := parallelFirst(len(alpha), func(first int) (int, *core.ExtraFailure) {
+		n := 0
+		var fail *core.ExtraFailure
+		enumerate(alpha, first, maxLen, func(b []byte) {
+			s := string(b)
+			for _, base := range bases {
+				for _, bits := range bitss {
+					n++
+					wv, werr := strconv.ParseUint(s, base, bits)
+					v1, e1 := strz.ParseUint(s, base, bits)
+					v2, e2 := strz.ParseUint(b, base, bits)
+					if fail == nil && (v1 != wv || v2 != wv || (e1 != nil) != (werr != nil) || (e2 != nil) != (werr != nil)) {
+						fail = &core.ExtraFailure{
+							Failure: core.Failure{Key: "parseuint-value", Desc: fmt.Sprintf("ParseUint(%q, %d, %d): string=(%d,%v) []byte=(%d,%v), strconv.ParseUint=(%d,%v)", s, base, bits, v1, e1, v2, e2, wv, werr)},
+							Payload: map[string]any{"lines": []string{"@ C15 mix", puLine(s, base, bits)}},
+						}
+					}
+				}
+			}
+		})
+		return n, fail
+	})
+	return evals, fmt.Sprintf("%d calls: all strings of length ≤ %d over %q × bases %v × bit sizes %v agree with strconv.ParseUint", evals, maxLen, alpha, bases, bitss), fails
+}
+
+// hexSmallScope: every string of length ≤ 5 (quick) / ≤ 6 (thorough) over an alphabet of hex
+// digits at the class boundaries and their neighbours: HexDecode (string, []byte) and
+// HexDecodeInPlace vs encoding/hex (decoded prefix, error text, buffer after).
+func hexSmallScope(ctx *core.Ctx) (int, string, []core.ExtraFailure) {
+	const alpha = "09afAF/:@G`g\x80"
+	maxLen := 5
+	if ctx.Tier == "thorough" {
+		maxLen = 6
+	}
+	evals, fails := parallelFirst(len(alpha), func(first int) (int, *core.ExtraFailure) {
+		n := 0
+		var fail *core.ExtraFailure
+		dst := make([]byte, maxLen)
+		enumerate(alpha, first, maxLen, func(b []byte) {
+			n++
+			wn, werr := hex.Decode(dst, b)
+			want := dst[:wn]
+			o1, e1 := strz.HexDecode(string(b))
+			o2, e2 := strz.HexDecode(b)
+			buf := append([]byte{}, b...)
+			n3, e3 := strz.HexDecodeInPlace(buf)
+			after := append(append([]byte{}, want...), b[wn:]...)
+			ok := bytes.Equal(o1, want) && bytes.Equal(o2, want) && errText(e1) == errText(werr) && errText(e2) == errText(werr) &&
+				n3 == wn && errText(e3) == errText(werr) && bytes.Equal(buf, after)
+			if !ok && fail == nil {
+				fail = &core.ExtraFailure{
+					Failure: core.Failure{Key: "hexdecode", Desc: fmt.Sprintf("HexDecode(%q): string=(%q,%v) []byte=(%q,%v) in-place=(%d,%v,%q), encoding/hex=(%q,%v)", b, o1, e1, o2, e2, n3, e3, buf, want, werr)},
+					Payload: map[string]any{"lines": []string{"@ C15 mix", "hd " + hx(b), "hdip " + hx(b)}},
+				}
+			}
+		})
+		return n, fail
+	})
+	return evals, fmt.Sprintf("%d strings: all of length ≤ %d over %q agree with encoding/hex (HexDecode string/[]byte, HexDecodeInPlace)", evals, maxLen, alpha), fails
 }
